@@ -721,9 +721,189 @@ func (c *Ctx) mixinSections(mix *core.FuncInfo) {
 // opIDRules (C18): rename only on collision of a non-empty id, record afterwards, primary ids collected.
 func (c *Ctx) opIDRules(reach []*core.FuncInfo) {
 	n := 0
-	for _, fi := range reach {
+	// check decides the clauses for one assignment of an operation id: `as` in fi assigns `sel` (the Operation.ID
+	// member, or — inside a helper that receives the id — the parameter holding it)
+	var check func(fi *core.FuncInfo, as *ast.AssignStmt, sel ast.Expr, key string, callerNonEmpty bool)
+	check = func(fi *core.FuncInfo, as *ast.AssignStmt, sel ast.Expr, key string, callerNonEmpty bool) {
 		info := c.info(fi)
 		pm := c.parents(fi)
+		{
+			{
+				var seenCond, nonEmpty bool
+				var idSet ast.Expr
+				for _, cd := range c.conds(fi, as) {
+					if cd.Kind != core.CondBool {
+						continue
+					}
+					if ix, ok := core.Unparen(cd.Expr).(*ast.IndexExpr); ok && !cd.Neg && sameExpr(ix.Index, sel) {
+						if mt, ok := info.TypeOf(ix.X).Underlying().(*types.Map); ok && core.IsBool(mt.Elem()) {
+							seenCond = true
+							idSet = ix.X
+						}
+					}
+					if m, k, isLookup := c.commaOkLookup(fi, cd.Expr); isLookup && !cd.Neg && sameExpr(k, sel) {
+						seenCond = true
+						idSet = m
+					}
+					if x, empty, ok := core.EmptyTest(info, cd); ok && !empty && sameExpr(x, sel) {
+						nonEmpty = true
+					}
+				}
+				nonEmpty = nonEmpty || callerNonEmpty
+				c.S.Decide(seenCond, "C18", "GUARD-RENAME", key+"/only-on-collision", c.P.Pos(as.Pos()),
+					"the id is changed only when it is already in the set of seen ids",
+					"the operation id is rewritten without testing that it collides with a seen id")
+				c.S.Decide(nonEmpty, "C18", "GUARD-RENAME", key+"/non-empty", c.P.Pos(as.Pos()),
+					"an empty id is never renamed",
+					"the rename is not guarded by the id being non-empty: the empty id is recorded as seen, so an operation without operationId is given the id \"Mixin<N>\"")
+				// the new id mentions the old id, a constant tag and the mixin index
+				rhs := exprStr(as.Rhs[0])
+				hasOld := strings.Contains(rhs, exprStr(sel))
+				hasConst := false
+				ast.Inspect(as.Rhs[0], func(m ast.Node) bool {
+					if e, ok := m.(ast.Expr); ok {
+						if s, ok := core.ConstString(info, e); ok && strings.Contains(s, "Mixin") {
+							hasConst = true
+						}
+					}
+					return true
+				})
+				hasIdx := false
+				ast.Inspect(as.Rhs[0], func(m ast.Node) bool {
+					if id, ok := m.(*ast.Ident); ok {
+						if o := info.Uses[id]; o != nil && c.P.Locals(fi).Params[o] {
+							if b, ok := o.Type().Underlying().(*types.Basic); ok && b.Info()&types.IsInteger != 0 {
+								hasIdx = true
+							}
+						}
+					}
+					return true
+				})
+				if as.Tok == token.ADD_ASSIGN {
+					hasOld = true // id += suffix keeps the old id
+				}
+				// a suffix prepared by the caller: follow the parameter to the arguments at the call sites
+				ast.Inspect(as.Rhs[0], func(m ast.Node) bool {
+					id, ok := m.(*ast.Ident)
+					if !ok {
+						return true
+					}
+					po := info.Uses[id]
+					idx, isParam := c.paramIndexOf(fi, po)
+					if po == nil || !isParam {
+						return true
+					}
+					for _, caller := range reach {
+						cinfo := c.info(caller)
+						for _, call := range calls(caller.Decl.Body) {
+							if c.P.StaticCallee(caller, call) != fi.Obj || idx >= len(call.Args) {
+								continue
+							}
+							arg := call.Args[idx]
+							if o := core.ObjOf(cinfo, arg); o != nil {
+								if defs := c.P.Locals(caller).Defs[o]; len(defs) == 1 && defs[0].Kind == core.DefAssign {
+									arg = defs[0].Expr
+								}
+							}
+							ast.Inspect(arg, func(k ast.Node) bool {
+								if e, ok := k.(ast.Expr); ok {
+									if sv, ok := core.ConstString(cinfo, e); ok && strings.Contains(sv, "Mixin") {
+										hasConst = true
+									}
+								}
+								if aid, ok := k.(*ast.Ident); ok {
+									if o := cinfo.Uses[aid]; o != nil && c.P.Locals(caller).Params[o] {
+										if b, ok := o.Type().Underlying().(*types.Basic); ok && b.Info()&types.IsInteger != 0 {
+											hasIdx = true
+										}
+									}
+								}
+								return true
+							})
+						}
+					}
+					return true
+				})
+				c.S.Decide(hasOld && hasConst && hasIdx, "C18", "GUARD-RENAME", key+"/new-name", c.P.Pos(as.Pos()),
+					"new id = old id + \"Mixin\" + mixin index", "the new id "+rhs+" is not built from the old id, the \"Mixin\" tag and the mixin index")
+				// recorded afterwards: a later sibling in the loop body stores IDSET[<id>] = true
+				recorded := false
+				if idSet != nil {
+					loop := pm.Enclosing(as, func(x ast.Node) bool {
+						switch x.(type) {
+						case *ast.RangeStmt, *ast.ForStmt:
+							return true
+						}
+						return false
+					})
+					var iterBody []ast.Stmt
+					if rs, ok := loop.(*ast.RangeStmt); ok {
+						iterBody = rs.Body.List
+					} else if loop == nil {
+						iterBody = fi.Decl.Body.List // a helper called once per operation: its body is the iteration
+					}
+					if iterBody != nil {
+						after := false
+						for _, st := range iterBody {
+							if pm.IsAncestor(st, as) {
+								after = true
+								continue
+							}
+							if !after {
+								continue
+							}
+							if a2, ok := st.(*ast.AssignStmt); ok && len(a2.Lhs) == 1 {
+								if ix, ok := core.Unparen(a2.Lhs[0]).(*ast.IndexExpr); ok && sameExpr(ix.X, idSet) && sameExpr(ix.Index, sel) {
+									recorded = true
+								}
+							}
+						}
+						// every way of leaving the iteration before the recording is the empty-id test and nothing else:
+						// a non-empty id that does not collide must be recorded too
+						for _, st := range iterBody {
+							if pm.IsAncestor(st, as) {
+								break
+							}
+							leaves := false
+							ast.Inspect(st, func(k ast.Node) bool {
+								switch x := k.(type) {
+								case *ast.FuncLit, *ast.RangeStmt, *ast.ForStmt:
+									return false
+								case *ast.BranchStmt:
+									if x.Tok == token.CONTINUE || x.Tok == token.BREAK || x.Tok == token.GOTO {
+										leaves = true
+									}
+								case *ast.ReturnStmt:
+									leaves = true
+								}
+								return true
+							})
+							if !leaves {
+								continue
+							}
+							onlyEmpty := false
+							if ifs, ok := st.(*ast.IfStmt); ok && ifs.Else == nil && ifs.Init == nil {
+								onlyEmpty = true
+								for _, cd := range core.SplitCond(ifs.Cond, false) {
+									if x, empty, ok := core.EmptyTest(info, cd); !ok || !empty || !sameExpr(x, sel) {
+										onlyEmpty = false
+									}
+								}
+							}
+							if !onlyEmpty {
+								recorded = false
+							}
+						}
+					}
+				}
+				c.S.Decide(recorded, "C18", "GUARD-RENAME", key+"/recorded", c.P.Pos(as.Pos()),
+					"the (possibly renamed) id is recorded as seen for every merged operation",
+					"after the rename the id is not recorded in the set of seen ids on every path: a later mixin can reuse it")
+			}
+		}
+	}
+	for _, fi := range reach {
+		info := c.info(fi)
 		ast.Inspect(fi.Decl.Body, func(nd ast.Node) bool {
 			as, ok := nd.(*ast.AssignStmt)
 			if !ok || len(as.Lhs) != 1 || len(as.Rhs) != 1 {
@@ -739,169 +919,41 @@ func (c *Ctx) opIDRules(reach []*core.FuncInfo) {
 			}
 			n++
 			key := fi.QName() + "/" + exprStr(sel)
-			var seenCond, nonEmpty bool
-			var idSet ast.Expr
-			for _, cd := range c.conds(fi, as) {
-				if cd.Kind != core.CondBool {
-					continue
-				}
-				if ix, ok := core.Unparen(cd.Expr).(*ast.IndexExpr); ok && !cd.Neg && sameExpr(ix.Index, sel) {
-					if mt, ok := info.TypeOf(ix.X).Underlying().(*types.Map); ok && core.IsBool(mt.Elem()) {
-						seenCond = true
-						idSet = ix.X
-					}
-				}
-				if m, k, isLookup := c.commaOkLookup(fi, cd.Expr); isLookup && !cd.Neg && sameExpr(k, sel) {
-					seenCond = true
-					idSet = m
-				}
-				if x, empty, ok := core.EmptyTest(info, cd); ok && !empty && sameExpr(x, sel) {
-					nonEmpty = true
-				}
-			}
-			c.S.Decide(seenCond, "C18", "GUARD-RENAME", key+"/only-on-collision", c.P.Pos(as.Pos()),
-				"the id is changed only when it is already in the set of seen ids",
-				"the operation id is rewritten without testing that it collides with a seen id")
-			c.S.Decide(nonEmpty, "C18", "GUARD-RENAME", key+"/non-empty", c.P.Pos(as.Pos()),
-				"an empty id is never renamed",
-				"the rename is not guarded by the id being non-empty: the empty id is recorded as seen, so an operation without operationId is given the id \"Mixin<N>\"")
-			// the new id mentions the old id, a constant tag and the mixin index
-			rhs := exprStr(as.Rhs[0])
-			hasOld := strings.Contains(rhs, exprStr(sel))
-			hasConst := false
-			ast.Inspect(as.Rhs[0], func(m ast.Node) bool {
-				if e, ok := m.(ast.Expr); ok {
-					if s, ok := core.ConstString(info, e); ok && strings.Contains(s, "Mixin") {
-						hasConst = true
-					}
-				}
-				return true
-			})
-			hasIdx := false
-			ast.Inspect(as.Rhs[0], func(m ast.Node) bool {
-				if id, ok := m.(*ast.Ident); ok {
-					if o := info.Uses[id]; o != nil && c.P.Locals(fi).Params[o] {
-						if b, ok := o.Type().Underlying().(*types.Basic); ok && b.Info()&types.IsInteger != 0 {
-							hasIdx = true
-						}
-					}
-				}
-				return true
-			})
-			if as.Tok == token.ADD_ASSIGN {
-				hasOld = true // id += suffix keeps the old id
-			}
-			// a suffix prepared by the caller: follow the parameter to the arguments at the call sites
-			ast.Inspect(as.Rhs[0], func(m ast.Node) bool {
-				id, ok := m.(*ast.Ident)
-				if !ok {
-					return true
-				}
-				po := info.Uses[id]
-				idx, isParam := c.paramIndexOf(fi, po)
-				if po == nil || !isParam {
-					return true
-				}
-				for _, caller := range reach {
-					cinfo := c.info(caller)
-					for _, call := range calls(caller.Decl.Body) {
-						if c.P.StaticCallee(caller, call) != fi.Obj || idx >= len(call.Args) {
+			// op.ID = set.reserve(op.ID, idx): the clauses are decided inside the helper, on the parameter that holds
+			// the id; the non-empty clause at the call site
+			if call, isCall := core.Unparen(as.Rhs[0]).(*ast.CallExpr); isCall {
+				if h := c.P.Funcs[c.P.StaticCallee(fi, call)]; h != nil && h.Decl != nil && h.Decl.Body != nil {
+					for ai, a := range call.Args {
+						if !sameExpr(a, sel) {
 							continue
 						}
-						arg := call.Args[idx]
-						if o := core.ObjOf(cinfo, arg); o != nil {
-							if defs := c.P.Locals(caller).Defs[o]; len(defs) == 1 && defs[0].Kind == core.DefAssign {
-								arg = defs[0].Expr
+						po := paramObj(h, ai)
+						hinfo := c.info(h)
+						callerNonEmpty := false
+						for _, cd := range c.conds(fi, as) {
+							if x, empty, ok := core.EmptyTest(info, cd); ok && !empty && sameExpr(x, sel) {
+								callerNonEmpty = true
 							}
 						}
-						ast.Inspect(arg, func(k ast.Node) bool {
-							if e, ok := k.(ast.Expr); ok {
-								if sv, ok := core.ConstString(cinfo, e); ok && strings.Contains(sv, "Mixin") {
-									hasConst = true
-								}
+						done := false
+						ast.Inspect(h.Decl.Body, func(m ast.Node) bool {
+							has, ok := m.(*ast.AssignStmt)
+							if !ok || len(has.Lhs) != 1 || len(has.Rhs) != 1 || done {
+								return true
 							}
-							if aid, ok := k.(*ast.Ident); ok {
-								if o := cinfo.Uses[aid]; o != nil && c.P.Locals(caller).Params[o] {
-									if b, ok := o.Type().Underlying().(*types.Basic); ok && b.Info()&types.IsInteger != 0 {
-										hasIdx = true
-									}
-								}
+							if id, isID := core.Unparen(has.Lhs[0]).(*ast.Ident); isID && po != nil && core.ObjOf(hinfo, id) == types.Object(po) {
+								check(h, has, id, key, callerNonEmpty)
+								done = true
 							}
 							return true
 						})
-					}
-				}
-				return true
-			})
-			c.S.Decide(hasOld && hasConst && hasIdx, "C18", "GUARD-RENAME", key+"/new-name", c.P.Pos(as.Pos()),
-				"new id = old id + \"Mixin\" + mixin index", "the new id "+rhs+" is not built from the old id, the \"Mixin\" tag and the mixin index")
-			// recorded afterwards: a later sibling in the loop body stores IDSET[<id>] = true
-			recorded := false
-			if idSet != nil {
-				loop := pm.Enclosing(as, func(x ast.Node) bool {
-					switch x.(type) {
-					case *ast.RangeStmt, *ast.ForStmt:
-						return true
-					}
-					return false
-				})
-				if rs, ok := loop.(*ast.RangeStmt); ok {
-					after := false
-					for _, st := range rs.Body.List {
-						if pm.IsAncestor(st, as) {
-							after = true
-							continue
-						}
-						if !after {
-							continue
-						}
-						if a2, ok := st.(*ast.AssignStmt); ok && len(a2.Lhs) == 1 {
-							if ix, ok := core.Unparen(a2.Lhs[0]).(*ast.IndexExpr); ok && sameExpr(ix.X, idSet) && sameExpr(ix.Index, sel) {
-								recorded = true
-							}
-						}
-					}
-					// every way of leaving the iteration before the recording is the empty-id test and nothing else:
-					// a non-empty id that does not collide must be recorded too
-					for _, st := range rs.Body.List {
-						if pm.IsAncestor(st, as) {
-							break
-						}
-						leaves := false
-						ast.Inspect(st, func(k ast.Node) bool {
-							switch x := k.(type) {
-							case *ast.FuncLit, *ast.RangeStmt, *ast.ForStmt:
-								return false
-							case *ast.BranchStmt:
-								if x.Tok == token.CONTINUE || x.Tok == token.BREAK || x.Tok == token.GOTO {
-									leaves = true
-								}
-							case *ast.ReturnStmt:
-								leaves = true
-							}
+						if done {
 							return true
-						})
-						if !leaves {
-							continue
-						}
-						onlyEmpty := false
-						if ifs, ok := st.(*ast.IfStmt); ok && ifs.Else == nil && ifs.Init == nil {
-							onlyEmpty = true
-							for _, cd := range core.SplitCond(ifs.Cond, false) {
-								if x, empty, ok := core.EmptyTest(info, cd); !ok || !empty || !sameExpr(x, sel) {
-									onlyEmpty = false
-								}
-							}
-						}
-						if !onlyEmpty {
-							recorded = false
 						}
 					}
 				}
 			}
-			c.S.Decide(recorded, "C18", "GUARD-RENAME", key+"/recorded", c.P.Pos(as.Pos()),
-				"the (possibly renamed) id is recorded as seen for every merged operation",
-				"after the rename the id is not recorded in the set of seen ids on every path: a later mixin can reuse it")
+			check(fi, as, sel, key, false)
 			return true
 		})
 	}
